@@ -100,6 +100,9 @@ func (e *Engine) verifyFunc(key string) (res *FuncResult) {
 	for _, r := range c.Requires {
 		vc.assume(x.evalSpecBool(r, sc, st))
 	}
+	for _, flag := range strings.Fields(c.Opts["use"]) {
+		vc.assume(Var(flag, BoolS))
+	}
 	// vacuity: the preconditions must be satisfiable
 	cov := vc.oblige("cover", "cover:requires", True, x.pos(fi.Decl))
 	cov.Status = ""
